@@ -5,3 +5,4 @@ import Tibc.Expect.Packet
 #print axioms Tibc.C04.send_locks_or_burns
 #print axioms Tibc.C04.users_cannot_mint_vouchers
 #print axioms Tibc.C04.recv_back_releases_only_escrowed
+#print axioms Tibc.C04.one_holder_fails_under_relay_edit
